@@ -271,12 +271,43 @@ func runC17(a *A) {
 				arg = mi.X
 			}
 			fresh := true
-			for _, l := range phiLeaves(arg) {
-				if _, isMake := l.(*ssa.MakeMap); !isMake {
+			for _, lf := range phiLeafEdges(arg) {
+				if _, isMake := lf.v.(*ssa.MakeMap); isMake {
+					continue
+				}
+				// a map kept across evaluations is as good as a fresh one when it is emptied first: a loop
+				// over that very map that deletes every key (or clear(m)) lies on the way to the evaluation
+				emptied := false
+				at := c.Block()
+				if lf.from != nil {
+					at = lf.from
+				}
+				for _, ml := range mapRangeLoops(fn) {
+					if !sameValue(ml.X, lf.v) || !(ml.Header == at || ml.Header.Dominates(at)) {
+						continue
+					}
+					for b := range ml.Blocks {
+						for _, x := range b.Instrs {
+							if dc, ok := x.(*ssa.Call); ok {
+								if cc, isDel := isBuiltinCall(dc, "delete"); isDel && sameValue(cc.Args[0], lf.v) {
+									emptied = true
+								}
+							}
+						}
+					}
+				}
+				allInstrs(fn, func(x ssa.Instruction) {
+					if dc, ok := x.(*ssa.Call); ok {
+						if cc, isClr := isBuiltinCall(dc, "clear"); isClr && sameValue(cc.Args[0], lf.v) && (dc.Block() == at || dc.Block().Dominates(at)) {
+							emptied = true
+						}
+					}
+				})
+				if !emptied {
 					fresh = false
 				}
 			}
-			a.Check(fresh, fname(fn)+"#fresh-environment", c.Pos(), "the predicate is evaluated on a map made for this evaluation",
+			a.Check(fresh, fname(fn)+"#fresh-environment", c.Pos(), "the predicate is evaluated on a map made (or emptied) for this evaluation",
 				"the predicate is evaluated on "+TermOf(arg, nil).String()+", a map that outlives the evaluation: a placeholder not written this time (NULL aggregate) keeps the value of an earlier row or of another group, and the group fires on a false predicate")
 		})
 	})
@@ -311,6 +342,12 @@ func runC17(a *A) {
 											}
 											if _, isPhi := v.(*ssa.Phi); isPhi {
 												ok = true
+											}
+											// the number of specs created so far: unique for every spec that is appended
+											if lc, isCall := v.(*ssa.Call); isCall {
+												if cc, isLen := isBuiltinCall(lc, "len"); isLen && isFieldOf(TermOf(cc.Args[0], nil), "window.GlobalWindow", "triggerSpecs") {
+													ok = true
+												}
 											}
 										}
 									}
